@@ -14,8 +14,8 @@ CONFIG = {
         "util": [("network", "network")],
         "env": {"quick": {"VERIF_C43_SLURP_SMALL": 1200, "VERIF_C43_SLURP_MID": 200, "VERIF_C43_SLURP_TAGREPS": 1,
                           "VERIF_C43_FILTER": 1200, "VERIF_C43_NET": 120, "VERIF_C43_NET_TAGS": 1},
-                "thorough": {"VERIF_C43_SLURP_SMALL": 40000, "VERIF_C43_SLURP_MID": 4000, "VERIF_C43_SLURP_TAGREPS": 12,
-                             "VERIF_C43_FILTER": 30000, "VERIF_C43_NET": 3000, "VERIF_C43_NET_TAGS": 1}},
+                "thorough": {"VERIF_C43_SLURP_SMALL": 20000, "VERIF_C43_SLURP_MID": 2500, "VERIF_C43_SLURP_TAGREPS": 8,
+                             "VERIF_C43_FILTER": 15000, "VERIF_C43_NET": 1500, "VERIF_C43_NET_TAGS": 1}},
         "timeout": {"quick": 600, "thorough": 3000},
     }],
     "rule": "slurp: the real LimitedReaderSlurper fed by a scripted io.Reader (random chunkings incl. zero-length reads, EOF with or "
